@@ -365,6 +365,31 @@ def run(rep, tier, seed):
                         rep.violation('property', 'behaviour: context reloaded from JSON decompresses differently: %s vs %s' % (str(s1)[:80], str(s2)[:80]),
                                       dict(layer='json', op='behaviour', context=ctx.json(), schc=o1[1], direction=str(d)))
 
+    # contexts whose rules compute every computable field (field ids are enumeration members in the original, plain strings in the reload),
+    # on the packets where the ORDER of the computations matters (SCTP carried in UDP: the UDP checksum covers the SCTP checksum) and on
+    # corner checksums: original and reloaded context must decompress alike
+    from p_c09 import special_packets
+    from schc_util import COMPUTABLE
+    rnd_s = rng_for(seed, 'C12-special')
+    for stack, pkt in special_packets(rnd_s)[-30:] + special_packets(rnd_s)[:10]:
+        pdx = parser_for(stack).parse(Buffer(pkt, len(pkt) * 8))
+        pdx.direction = DI.UP
+        fds = [gen_rfd(rnd_s, f, 'comp' if str(getattr(f.id, 'value', f.id)) in COMPUTABLE else rnd_s.choice(['vs', 'ns', 'lsb']), DI.BIDIRECTIONAL) for f in pdx.fields]
+        ctx_o = Context(id='cs', description='', interface_id='i', parser_id=stack, ruleset=[RuleDescriptor(id=mk(randbits(rnd_s, 4)), field_descriptors=fds)])
+        o_ = impl_outcome(lambda: Context.from_json(ctx_o.json()))
+        if o_[0] != 'OK':
+            continue
+        cm_o, cm_r = ContextManager(ctx_o), ContextManager(o_[1])
+        s1 = obs_bits(with_timeout(lambda: cm_o.compress(Buffer(pkt, len(pkt) * 8), direction=DI.UP)))
+        rep.count('behaviour:compute-rules', key=('bcr', pkt))
+        rep.oracle_evals += 1
+        if s1[0] == 'OK' and isinstance(s1[1], str):
+            d1 = obs_bits(with_timeout(lambda: cm_o.decompress(mk(s1[1], R), direction=DI.UP)))
+            d2 = obs_bits(with_timeout(lambda: cm_r.decompress(mk(s1[1], R), direction=DI.UP)))
+            if d1 != d2 or d1 != ('OK', b2s(pkt)):
+                rep.violation('property', 'behaviour: a context whose rule computes lengths and checksums (%s) decompresses to %s, the context reloaded from its JSON to %s, the packet is %s'
+                              % (stack, str(d1)[:70], str(d2)[:70], b2s(pkt)[:70]), dict(layer='json', op='behaviour-compute', context=ctx_o.json(), schc=s1[1], packet=pkt.hex()))
+                break
     # another host: the JSON text of the context is all that crosses; a fresh interpreter loads it and must compress and decompress as
     # the manager of the original context does here
     import freshproc
